@@ -70,7 +70,7 @@ func c19Enumerate(tier string, yield func(any)) {
 		}
 	}
 	if tier == "thorough" {
-		// full value product for subsets of size <= 3
+		// full value product for subsets of size <= 4
 		var rec func(k int, v []int, used int)
 		rec = func(k int, v []int, used int) {
 			if k == 6 {
@@ -79,7 +79,7 @@ func c19Enumerate(tier string, yield func(any)) {
 			}
 			v[k] = -1
 			rec(k+1, v, used)
-			if used < 3 {
+			if used < 4 {
 				for val := 0; val < dims[k]; val++ {
 					v[k] = val
 					rec(k+1, v, used+1)
@@ -277,8 +277,8 @@ func init() {
 	register(&engine.Check{
 		ID:          "C19",
 		Level:       "exploration",
-		Rule:        "all 64 subsets of the six manipulation keys (one value each), every single key with every value (version {0,1,2,3,255}; OIDs {1.2.3.4, sha256WithRSA, ecdsa-with-SHA256, 2.999.1}; byte fields {!empty,!null,4 B,100 B}), value products for pairs (quick, half) / for all subsets of size <=3 (thorough), each x {root, subordinate} x extension set {none, SKI+AKI hash, all kinds}. Existing RSA keys, configured serial and absolute dates make the certificate deterministic: it is compared (1) field by field with the reference translation, (2) differentially with the same configuration without the block (every other TBS field byte-identical; outer-only manipulations leave TBS and RSA signature identical), (3) signature verified over the actual TBS bytes with the real issuer key. non-trivial = distinct case",
-		Bound:       map[string]string{"subset size with full value product": "quick 2 (half), thorough 3"},
+		Rule:        "all 64 subsets of the six manipulation keys (one value each), every single key with every value (version {0,1,2,3,255}; OIDs {1.2.3.4, sha256WithRSA, ecdsa-with-SHA256, 2.999.1}; byte fields {!empty,!null,4 B,100 B}), value products for pairs (quick, half) / for all subsets of size <=4 (thorough), each x {root, subordinate} x extension set {none, SKI+AKI hash, all kinds}. Existing RSA keys, configured serial and absolute dates make the certificate deterministic: it is compared (1) field by field with the reference translation, (2) differentially with the same configuration without the block (every other TBS field byte-identical; outer-only manipulations leave TBS and RSA signature identical), (3) signature verified over the actual TBS bytes with the real issuer key. non-trivial = distinct case",
+		Bound:       map[string]string{"subset size with full value product": "quick 2 (half), thorough 4"},
 		Assumptions: []string{"RSA PKCS#1 v1.5 signing is deterministic"},
 		Budget:      budgets(quickBudget, thoroughBudget),
 		Enumerate:   c19Enumerate,
